@@ -211,11 +211,13 @@ func (w *vpWorld) client(seed []byte, fam int) vpGot {
 	return vpWrap(func() (*PhantomIP, error) { return SelectPhantom(seed, w.list, f, true) })
 }
 
+// byte width = family width.  (An IPv6 block an operator configures may cover ::ffff:0:0/96, so a 16-byte
+// result is not required to be outside the v4-mapped range; the family is judged by containment.)
 func vpWellFormed(ip net.IP, fam int) bool {
 	if fam == 4 {
 		return len(ip) == 4 || (len(ip) == 16 && ip.To4() != nil)
 	}
-	return len(ip) == 16 && ip.To4() == nil
+	return len(ip) == 16
 }
 
 // value of the address whatever its byte width
@@ -271,7 +273,9 @@ func vpDrawsHkdf(seed []byte, totw, t int64) (w, id int64) {
 
 func vpDrawsLegacy(seed []byte, totw int64, fam int, maxsz int64) (w, h int64, idraw *big.Int) {
 	seedInt, _ := binary.Varint(seed)
-	w = int64(mrand.New(mrand.NewSource(seedInt)).Intn(int(totw)))
+	if totw > 0 {
+		w = int64(mrand.New(mrand.NewSource(seedInt)).Intn(int(totw)))
+	}
 	n := 4
 	if fam == 6 {
 		n = 16
@@ -335,6 +339,9 @@ func vpLoad(t testing.TB) *vpTables {
 // key of the specification case a real seed falls into
 func (tb *vpTables) keyOf(w *vpWorld, lv, fam int, seed []byte) string {
 	g := fmt.Sprintf("%s|%d|%d", w.name, lv, fam)
+	if w.totw <= 0 {
+		return vpKey(w.name, lv, fam, 0, 0, 0) // nothing has weight: no draw is made
+	}
 	if lv >= 2 {
 		wd, _ := vpDrawsHkdf(seed, w.totw, 0)
 		t := tb.tt[fmt.Sprintf("%s|%d", g, wd)]
@@ -566,8 +573,8 @@ func vpGenConfig(r *mrand.Rand, idx int) *vpWorld {
 	for _, v := range weights {
 		tot += v
 	}
-	if tot == 0 {
-		weights[r.Intn(ng)] = 1 + uint32(r.Intn(3))
+	if tot == 0 && r.Intn(3) != 0 {
+		weights[r.Intn(ng)] = 1 + uint32(r.Intn(3)) // (one in three all-zero draws stays all-zero: selection must fail cleanly)
 	}
 	rps := make([]bool, ng)
 	cidrs := make([][]string, ng)
@@ -664,6 +671,7 @@ func vpStageGenerated(t *testing.T, out *vOut, rng *mrand.Rand, thorough bool) {
 		vpBuild("fixed-lead0", []uint32{1, 1}, []bool{true, false}, [][]string{{"0.1.0.0/16", "0100::/64", "0.0.0.0/8"}, {"::/64", "0:0:1::/48", "0.0.1.0/24"}}),
 		vpBuild("fixed-default", []uint32{9, 1}, []bool{false, true}, [][]string{{"192.122.190.0/24", "2001:48a8:687f:1::/64"}, {"141.219.0.0/16", "35.8.0.0/16"}}),
 		vpBuild("fixed-wide", []uint32{1}, []bool{true}, [][]string{{"0.0.0.0/0", "::/0"}}),
+		vpBuild("fixed-noweight", []uint32{0, 0}, []bool{true, false}, [][]string{{"192.0.2.0/24", "2001:db8:7::/64"}, {"198.51.100.0/24"}}),
 	}
 	calls, sel, errs, malformed, viol := 0, 0, 0, 0, 0
 	classes := map[string]bool{}
